@@ -47,7 +47,10 @@ def model_part(ctx, facts, impl_ok, M=None):
     import os, re, vlib
     M = M or dict(prop="C09", key="close", order=CFG_ORDER, struct=STRUCT, scen=SCEN, run="Run.RunClose", proofs="Proofs.CloseP", what="Close",
                   stuck="close_stuck cfg_now %d %s", unsafe="match walks cfg_now safe %d %s with Some (x, t) => Some (x, length t) | None => None end",
-                  thm1="C09_never_crashes", thm2="C09_closed_is_final")
+                  thm1="C09_never_crashes", thm2="C09_closed_is_final",
+                  live="From WV Require Import Proofs.CloseLive.\nTheorem now_close_returns : forall ls0 k, let s := exec cfg_now init ls0 in k < length (cl s) -> (forall i, getG s i <> GBody) -> "
+                       "exists ls s', run cfg_now s ls = Some s' /\\ (exists b, getC s' k = CRet b) /\\ length ls <= 19 + 6 * length (trs s) + length (gs s).\n"
+                       "Proof. rewrite cfg_is_good. exact close_returns. Qed.\n")
     CFG_ORDER_, STRUCT_, SCEN_ = M["order"], M["struct"], M["scen"]
     cfg = facts[M["key"]]
     bad = [k for k in CFG_ORDER_ if not cfg.get(k)]
@@ -66,6 +69,7 @@ def model_part(ctx, facts, impl_ok, M=None):
         f.write("Lemma cfg_is_good : cfg_now = good.\nProof. reflexivity. Qed.\n")
         f.write("Theorem now_never_crashes : forall ls, crashed (exec cfg_now init ls) = false.\nProof. rewrite cfg_is_good. intros ls. exact (i_nc _ (inv_exec ls init inv_init)). Qed.\n")
         f.write("Theorem now_is_final : forall ls, tore (exec cfg_now init ls) = true -> final (exec cfg_now init ls) = true.\nProof. rewrite cfg_is_good. intros ls. apply inv_final. exact (inv_exec ls init inv_init). Qed.\n")
+        f.write(M.get("live", ""))
         f.write("Print Assumptions now_is_final.\n")
     rc, out, secs = vlib.coqc(path, timeout=900)
     m1 = re.search(r"stuck\s*=\s*\[(.*?)\]", out, re.S)
